@@ -94,7 +94,10 @@ class _RoutingFlowControl:
             if elapsed < ROUTING_INDICATION_WAIT_TIME:
                 await asyncio.sleep(ROUTING_INDICATION_WAIT_TIME - elapsed)
 
-            await self._ready.wait()
+            # Event.wait() does not check the flag again when it is woken up - a
+            # RoutingBusy handled in between has cleared it again
+            while not self._ready.is_set():
+                await self._ready.wait()
             yield
             self._last_sent_routing_indication_time = self._loop.time()
 
